@@ -43,7 +43,9 @@ SymMsg(s, M, d) ==
                             [] f.card = "map" -> [t |-> "mp", es |-> <<[k |-> "k1", v |-> one]>>]
                             [] OTHER -> one]]]
 
-TopMsg(s) == MsgByName(s, s.files[1].services[1].methods[1].in)
+\* (the first file that declares a service: in the splitfiles layout the parts come first)
+SvcFileIdx(s) == CHOOSE i \in DOMAIN s.files : Len(s.files[i].services) > 0 /\ \A j \in DOMAIN s.files : Len(s.files[j].services) > 0 => i <= j
+TopMsg(s) == MsgByName(s, s.files[SvcFileIdx(s)].services[1].methods[1].in)
 
 Init == fv \in Cases /\ pc = "new"
 Load == /\ pc = "new" /\ pc' = "loaded"
